@@ -1,6 +1,6 @@
 (* The observations the harness records about the real crate, and their line format. *)
 From Coq Require Import Ascii String.
-From WF Require Import Base.Bytes Spec.Route Spec.Walk Model.Tree Model.Parser Model.Router Check.Tokens.
+From WF Require Import Base.Bytes Spec.Route Spec.Walk Model.Tree Model.Parser Model.Router Model.Arcs Check.Tokens.
 
 (* real search result: template, expanded, data, parameters *)
 Definition sres := option (bytes * option bytes * N * params).
@@ -19,6 +19,7 @@ Inductive event :=
 | EvParse (t : bytes) (r : out (list expansion)) (rendered : bytes)
 | EvBuiltin (name value : bytes) (routed fromstr : bool)
 | EvOci (method : bytes) (url : bytes) (r : option (bytes * params))   (* handler name, parameters *)
+| EvArcs (v : aview)      (* the shared-data view of the whole family, read after a mutating call *)
 | EvEnd.
 
 Local Open Scope N_scope.
@@ -153,6 +154,9 @@ Definition pevent (fuel : nat) : P event :=
   else if beqb t (w "oci") then
     (let* m := phex in let* u := phex in
      let* r := popt (let* h := phex in let* ps := plist pparam in pret (h, ps)) in pret (EvOci m u r))
+  else if beqb t (w "arcs") then
+    (let* v := plist (let* s := pnum in let* tm := phex in let* i := pnum in let* c := pnat in pret (AN s tm i c)) in
+     pret (EvArcs v))
   else if beqb t (w "end") then pret EvEnd
   else pfail.
 
